@@ -6,15 +6,15 @@ PROP = dict(
          "and the formulas recomputed on the implementation; plus JSON contracts with keys permuted at every level and extra whitespace (implementation only); "
          "distinct = distinct input bytes / JSON text; non-trivial = an issuance is present",
     trusted=["same codec model as C01 for TxIn and OutPoint", "hashes abstract in the theorems",
-             "the JSON-contract clause (key order / whitespace independence) is exploration on the implementation only: serde_json is an external library and is not modelled"],
+             "JSON contracts are modelled as trees whose scalar tokens are as serde_json prints them; serde_json's parser (whitespace, duplicate keys) and scalar printer stay external"],
     assumes=["canonical inputs (txin_wfB): plain index below 2^30 or the coinbase index"],
 )
 TEXT = dict(
     text="Kernel-checked theorems over abstract hashes: the id formulas (entropy from the plain outpoint and contract hash, or carried for a reissuance; asset = cmp(entropy,0); "
          "token = cmp(entropy,1|2)); the input of the extracted transaction yields the same ids for every canonical input; the PSET input yields the same ids outside the "
          "known class F10, and inside it provably hashes the outpoint index with the flag bits (a different serialization) — finding F10, re-derived on the real crate on every run. "
-         "JSON contract canonicalisation is checked on the implementation only.",
+         "Re-ordering the keys of any JSON object at any depth does not change the canonical serialisation and hence the contract hash (C11_json_order).",
     design_ref="DESIGN.md section 6, C11; finding F10",
-    note="Trusted: as C01; hashes abstract; JSON clause not modelled (partial).",
+    note="Trusted: as C01; hashes abstract; serde_json's parser/printer external.",
     technique="Coq proof (flag-bit arithmetic + unfolding over abstract hashes) + per-run model/implementation correspondence of the three views",
 )
